@@ -75,6 +75,13 @@ impl<'c, 'r, C: ZCol> Visitor<C> for V<'c, 'r> {
                 let mut c = IterTarget::<C>::new(*bx);
                 let _ = c.draw_iter(px.iter().copied());
                 ctx.count("pixels_iterator_items", px.len() as u64);
+                // "feeding the pixels() iterator" in other ways than a for loop yields the same sequence
+                if bi == 0 && px.len() <= 1200 {
+                    if let Some(dis) = d.pixels_consumed_differently(&px) {
+                        ctx.violation(format!("{}|pixels-iterator-consumed-differently", kind), case, || dis.clone());
+                    }
+                    ctx.count("pixels_iterators_consumed_in_other_ways", 1);
+                }
                 if !a.log.map.same(&c.log.map) {
                     let diff = a.log.map.first_diff(&c.log.map);
                     let class = if c.log.map.is_empty() && !a.log.map.is_empty() { "pixels-yields-nothing".to_string() } else { diff_class(&a.log.map, &c.log.map) };
